@@ -115,6 +115,10 @@ JSignedProbe(e) ==
      \* parses and carries a genuine signature over the bytes it was parsed from verifies
      R("C01", "genuine_signature_over_consumed_bytes_verifies", r.setup /\ e.adv.kind = "none" /\ r.pre.parse_ok /\ r.indep.sig_ok /\ r.indep.off_ok /\ LibVerifies(e.fn, e.st, tst),
        r.pre.verify_ok, cls),
+     \* the value itself, after it was verified once: a byte reachable through its public surface is changed in place; when the value's own
+     \* serialisation changed and the signature is not valid over it (independent decision), Verify() on the value must not succeed any more
+     R("C05", "verification_follows_edits_made_to_the_verified_value", r.setup /\ e.adv.kind = "edit_value_after_verify" /\ "edit" \in DOMAIN r /\ r.edit.done /\ r.edit.neffective > 0,
+       Len(r.edit.stale) = 0, cls),
      \* calibration (counts only): honest structures that the library verifies; without them the adversarial steps would be vacuous
      R("C05", "honest_structure_verified_by_library", r.setup /\ e.adv.kind = "none" /\ r.pre.verify_ok, r.indep.sig_ok /\ r.indep.off_ok, cls) >>
 \* a reference skeleton together with its slots: the driver puts real keys and signatures there (buildSigned), so the structure verifies
